@@ -161,6 +161,10 @@ def expected_elements(g, fl, i, j):
 
 
 TARGETED_PROGS = [
+    # multi-line f-strings with a NESTED f-string that starts on a later line than the outer one (the lines between are part of the string value: never dedented)
+    'class K:\n    def m(self):\n        header = f"""<table>\n      {f"<tr>{a}</tr>"}\n  </table>"""\n        return header\n',
+    "if x:\n    y = f'''a\n  b {f'{c}'}\n d {f'''e\n{g}'''}\n'''\n    z = 1\n",
+    'def f():\n    if a:\n        return f"""\n{b}\n   {f"{c!r:>{w}}"}\n""" + "t"\n',
     'try:\n    pass\nexcept A:\n    s = "déjà vu"  # ü\nexcept B:\n    t = "naïve"\nfinally:\n    u = "é"\n',
     'def first():\n    pass\n# explains second()\ndef second():\n    pass\n',
     'def first():\n    pass\n\n# explains second()\ndef second():\n    pass\nx = 1\n',
